@@ -22,7 +22,7 @@ const (
 	c01Canary   = "CANARY-7731-S3CR3T"
 )
 
-var c01Sinks = []string{"text", "vtext", "attr", "attr2", "text2x", "attr2x", "boundm2x", // 2x: the same placeholder twice in one text run / attribute value "bound", "vbind", "boundm", "class", "style", "boundstatic",
+var c01Sinks = []string{"text", "vtext", "attr", "attr2", "text2x", "attr2x", "boundm2x", "stylehid", "styleihid", "attrhid", // 2x: the same placeholder twice in one text run / attribute value "bound", "vbind", "boundm", "class", "style", "boundstatic",
 	// the {{ }} text sink under parents the HTML parser treats specially (raw text, RCDATA, foreign content, table/select scoping)
 	"text@noscript", "text@xmp", "text@iframe", "text@noembed", "text@noframes", "text@textarea", "text@title", "text@pre", "text@premix",
 	"text@option", "text@td", "text@svgtext", "text@button", "text@h1", "text@a", "text@li", "text@code", "vtext@textarea", "vtext@noscript",
@@ -141,6 +141,12 @@ func c01SinkEl(sink, nbh, e, extra string) (el string, sinkAttr string, lDec, rD
 		return open + `>lead ` + lS + `<template v-if="t">a</template><template v-if="t">{{ ` + e + ` }}</template>` + rS + `</p>`, "", "", "", false
 	case "bracket":
 		return open + ` [title]="` + lS + `{{ ` + e + ` }}` + rS + `">k</p>`, "title", lD, rD, true
+	case "stylehid": // the style sinks on an element a false v-show hides (the style value is parsed and written again)
+		return open + ` :style="` + e + `" v-show="f">k</p>`, "style", "", "", false
+	case "styleihid":
+		return open + ` style="color: {{ ` + e + ` }}" v-show="f">k</p>`, "style", "", "", false
+	case "attrhid":
+		return open + ` title="{{ ` + e + ` }}" style="margin:0" v-show="f">k</p>`, "title", "", "", false
 	case "text2x":
 		return open + `>` + lS + `{{ ` + e + ` }}|{{ ` + e + ` }}` + rS + `</p>`, "", "", "", false
 	case "attr2x":
